@@ -897,6 +897,9 @@ def _expand_when_stmt_element(
             group_assignment_elements[case_idx].append([])
             for group_element in and_group["elements"]:
                 match_element = copy.deepcopy(group_element)
+                # The same Spec object can be part of several and-groups after normalization
+                # (e.g. `a and (b or c)`), so work on a copy instead of mutating the shared object.
+                group_element = copy.deepcopy(group_element)
                 ref_uid = None
                 temp_ref_uid: str
                 if (
